@@ -1,12 +1,12 @@
 SPECIFICATION Spec
 CONSTANTS
   Procs = {"p1", "p2"}
-  Names = {"n1"}
+  Names = {}
   Clients = {"c1"}
   MaxOps = 4
   NamesSurviveExit = FALSE
-  OpKinds = {"spawn", "register", "unregister", "send", "kill", "send_name", "link", "unlink", "monitor", "demonitor"}
-  PreSpawn = FALSE
+  OpKinds = {"kill", "link", "unlink", "monitor", "demonitor"}
+  PreSpawn = TRUE
   Sequential = TRUE
 CHECK_DEADLOCK FALSE
 ACTION_CONSTRAINT Emit
